@@ -7,7 +7,8 @@ PROP = dict(
                 "agreement between versions on shared keys."),
     rule=("prefix 1-3 + reverted fork 0-2 + fork 0-3 blocks, both backends, L1 head absent/behind/equal/ahead; per case every special block id and a drawn "
           "subset of number/hash ids x 9 block-level methods + nonce/class hash/storage/class reads + tx by (id,index) + tx/receipt/status by hash for "
-          "existing, reverted and random hashes. Non-trivial = a query resolved through l1_accepted, a reverted hash or a historical block; distinct = "
+          "existing, reverted and random hashes; getClassAt (route-consistent with getClass of getClassHashAt), Cairo 0 classes, and on v0.10 getStorageAt with "
+          "INCLUDE_LAST_UPDATE_BLOCK bounded by the chain's diffs. Non-trivial = a query resolved through l1_accepted, a reverted hash or a historical block; distinct = "
           "SHA-256 of shape, L1 head and head hash."),
     assumptions=["no Cairo execution (call/estimate/trace out of scope)", "pre-confirmed ids are not queried (no pre-confirmed chain in this harness)",
                  "fields other than the identity-bearing ones are checked by route consistency and version agreement only"],
